@@ -44,9 +44,21 @@ def gen_program(rnd):
     kinds = set()
     nres = 0
 
+    made = {}
+
     def index(dim):
+        if made.get(dim) and rnd.random() < 0.25:
+            kinds.add("index-object-reused")
+            return rnd.choice(made[dim])       # the same index object used for several accesses
         name = inp(rnd.randint(0, shape[dim] - 1))
         idx_slots.append((len(inputs) - 1, shape[dim]))
+        made.setdefault(dim, []).append(name)
+        if rnd.random() < 0.3:
+            # the index is first used for a read in a region whose guard is false (where anything is tolerated), then for real
+            kinds.add("dead-region-read-first")
+            if "OFF = PrivValBool(0)" not in lines:
+                lines.append("OFF = PrivValBool(0)")
+            lines.append("guarded(OFF)(lambda: A[%s])()" % name)
         return name
 
     for _ in range(rnd.randint(1, 8)):
